@@ -839,7 +839,7 @@ impl<'t> Match<'t> {
                 let mut begin = None;
                 for group in m.iter() {
                     if let Some(group) = group {
-                        if begin.is_none() || begin.unwrap() < group.start() {
+                        if begin.is_none() || begin.unwrap() > group.start() {
                             begin = Some(group.start());
                         }
                     }
@@ -857,8 +857,8 @@ impl<'t> Match<'t> {
                 let mut end = None;
                 for group in m.iter() {
                     if let Some(group) = group {
-                        if end.is_none() || end.unwrap() < group.start() {
-                            end = Some(group.start());
+                        if end.is_none() || end.unwrap() < group.end() {
+                            end = Some(group.end());
                         }
                     }
                 }
